@@ -252,6 +252,43 @@ def names_in(node):
     return {c.value for c in ast.walk(node) if isinstance(c, ast.Constant) and isinstance(c.value, str)}
 
 
+def transition_roles(fi):
+    """(old, new): the local that holds the state before the switch (bound from self.state) and the name of the new state (the parameter)"""
+    params = [a.arg for a in fi.node.args.args if a.arg != 'self']
+    new = params[0] if params else None
+    old = None
+    for n in walk_no_nested(fi.node):
+        if isinstance(n, ast.Assign) and len(n.targets) == 1 and isinstance(n.targets[0], ast.Name) and ast.unparse(n.value) == 'self.state':
+            old = n.targets[0].id
+    return old, new
+
+
+def state_set(fi, node):
+    """string constants of a membership operand: a literal, or a local / module / class constant bound to one"""
+    got = names_in(node)
+    if got:
+        return got
+    if isinstance(node, ast.Name):
+        for n in walk_no_nested(fi.node):
+            if isinstance(n, ast.Assign) and any(isinstance(t, ast.Name) and t.id == node.id for t in n.targets):
+                return names_in(n.value)
+    return set()
+
+
+def transition_sides(fi, test, old, new):
+    """{role: set of states} for a test of the form `<old> in S1 and <new> in S2` (either order, `==` for singletons)"""
+    out = {}
+    vals = test.values if isinstance(test, ast.BoolOp) and isinstance(test.op, ast.And) else [test]
+    for x in vals:
+        if isinstance(x, ast.Compare) and len(x.ops) == 1 and isinstance(x.left, ast.Name) and x.left.id in (old, new):
+            role = 'old' if x.left.id == old else 'new'
+            if isinstance(x.ops[0], ast.In):
+                out[role] = state_set(fi, x.comparators[0])
+            elif isinstance(x.ops[0], ast.Eq) and isinstance(x.comparators[0], ast.Constant):
+                out[role] = {x.comparators[0].value}
+    return out
+
+
 def check_transitions(p, r):
     for ci in tables.edge_classes(p):
         if ci.name != 'ConveyorBelt':
@@ -263,32 +300,23 @@ def check_transitions(p, r):
             continue
         r.analysed_functions.add(fi.key)
         why = None
-        top = [n for n in fi.node.body if isinstance(n, ast.If)]
+        old, new_ = transition_roles(fi)
         found_int = found_res = False
-        for n in top:
-            cur = n
-            while cur is not None:
-                t = cur.test
-                if isinstance(t, ast.BoolOp) and isinstance(t.op, ast.And) and len(t.values) == 2:
-                    a, b = t.values
-                    def side(x):
-                        if isinstance(x, ast.Compare) and isinstance(x.ops[0], ast.In) and isinstance(x.left, ast.Name):
-                            return x.left.id, names_in(x.comparators[0])
-                        return None, set()
-                    (n1, s1), (n2, s2) = side(a), side(b)
-                    sides = {n1: s1, n2: s2}
-                    body_calls = {ast.unparse(c.func) for x in cur.body for c in ast.walk(x) if isinstance(c, ast.Call)}
-                    if sides.get('old_state') == MOVING and sides.get('new_state') == STALLED:
-                        found_int = 'self.belt.selective_interrupt' in body_calls
-                    if sides.get('old_state') == STALLED and sides.get('new_state') == MOVING:
-                        found_res = 'self.belt.resume_all_move_processes' in body_calls
-                cur = cur.orelse[0] if len(cur.orelse) == 1 and isinstance(cur.orelse[0], ast.If) else None
+        for n in walk_no_nested(fi.node):
+            if not isinstance(n, ast.If):
+                continue
+            sides = transition_sides(fi, n.test, old, new_)
+            body_calls = {ast.unparse(c_.func) for x in n.body for c_ in ast.walk(x) if isinstance(c_, ast.Call)}
+            if sides.get('old') == MOVING and sides.get('new') == STALLED:
+                found_int = found_int or 'self.belt.selective_interrupt' in body_calls
+            if sides.get('old') == STALLED and sides.get('new') == MOVING:
+                found_res = found_res or 'self.belt.resume_all_move_processes' in body_calls
         if not found_int:
             why = 'the transition {MOVING, IDLE} → {STALLED_*} does not call belt.selective_interrupt: items keep moving on a stalled belt'
         elif not found_res:
             why = 'the transition {STALLED_*} → {MOVING, IDLE} does not call belt.resume_all_move_processes: items never resume'
         # state assigned from the parameter
-        if not any(isinstance(n, ast.Assign) and ast.unparse(n).replace(' ', '') == 'self.state=new_state' for n in fi.node.body):
+        if not any(isinstance(n, ast.Assign) and ast.unparse(n).replace(' ', '') == f'self.state={new_}' for n in walk_no_nested(fi.node)):
             why = why or 'set_conveyor_state does not record the new state'
         (r.ok if not why else r.fail)('C13.R3', key, 'interrupt on stall, resume on release, for both stall states' if not why else why, src(fi.module), fi.node.lineno)
         # single writer
@@ -483,15 +511,12 @@ def check_delayed_interrupts(p, r):
             continue
         key = f'{fi.key}::release-cancels-delayed-interrupts'
         rel = None
+        old, new_ = transition_roles(fi)
         for n in walk_no_nested(fi.node):
             if isinstance(n, ast.If):
-                t = n.test
-                if isinstance(t, ast.BoolOp) and len(t.values) == 2:
-                    txt = ast.unparse(t)
-                    if txt.index('old_state') < txt.index('new_state') if ('old_state' in txt and 'new_state' in txt) else False:
-                        a, b = t.values
-                        if names_in(a) == STALLED and names_in(b) == MOVING:
-                            rel = n
+                sides = transition_sides(fi, n.test, old, new_)
+                if sides.get('old') == STALLED and sides.get('new') == MOVING:
+                    rel = n
         if rel is None:
             r.fail('C13.R6', key, 'no STALLED → MOVING branch in set_conveyor_state', src(fi.module), fi.node.lineno)
             continue
@@ -587,6 +612,32 @@ def check_stall_delay_conversion(p, r):
 
 
 # ------------------------------------------------------------------------------------------- R5
+TRACK_TABLES = ('active_move_processes', 'active_delayed_interrupt_processes')
+
+
+def tracked_process_expr(fi, expr, depth=0):
+    """the expression denotes a process taken from one of the store's tracking tables: it mentions a table, or a local that was bound
+    (assignment, for-target, comprehension) from an expression that does - whatever the locals are called"""
+    txt = ast.unparse(expr)
+    if any(t in txt for t in TRACK_TABLES):
+        return True
+    if depth > 3:
+        return False
+    names = {x.id for x in ast.walk(expr) if isinstance(x, ast.Name) and x.id != 'self'}
+    for m in walk_no_nested(fi.node):
+        if isinstance(m, ast.Assign) and any(isinstance(x, ast.Name) and x.id in names for t in m.targets for x in ast.walk(t)):
+            if tracked_process_expr(fi, m.value, depth + 1):
+                return True
+        if isinstance(m, (ast.For, ast.comprehension)) and any(isinstance(x, ast.Name) and x.id in names for x in ast.walk(m.target)):
+            if tracked_process_expr(fi, m.iter, depth + 1):
+                return True
+    for m in ast.walk(fi.node):
+        if isinstance(m, ast.comprehension) and any(isinstance(x, ast.Name) and x.id in names for x in ast.walk(m.target)):
+            if tracked_process_expr(fi, m.iter, depth + 1):
+                return True
+    return False
+
+
 def check_interrupters(p, reach, r):
     belt_keys = set()
     for s in belt_store_classes(p):
@@ -600,17 +651,7 @@ def check_interrupters(p, reach, r):
                 key = site(fi, c, 'interrupt')
                 inside = fi.cls is not None and (fi.module, fi.cls) in belt_keys
                 recv = c.func.value
-                tracked = False
-                rtxt = ast.unparse(recv)
-                if not isinstance(recv, ast.Name) and ('process_info' in rtxt or 'active_move_processes' in rtxt or 'active_delayed_interrupt_processes' in rtxt):
-                    tracked = True
-                if isinstance(recv, ast.Name):
-                    for m in walk_no_nested(fi.node):
-                        if isinstance(m, ast.Assign) and any(isinstance(t, ast.Name) and t.id == recv.id for t in m.targets):
-                            if 'process_info' in ast.unparse(m.value) or 'active_move_processes' in ast.unparse(m.value):
-                                tracked = True
-                        if isinstance(m, ast.For) and 'active_delayed_interrupt_processes' in ast.unparse(m.iter) and recv.id in ast.unparse(m.target):
-                            tracked = True
+                tracked = tracked_process_expr(fi, recv)
                 if inside and not tracked and isinstance(recv, ast.Name) and fi.name.startswith('_') \
                         and recv.id in [a.arg for a in fi.node.args.args]:
                     # the process is handed to a private helper: every call site must pass a process the store tracks
@@ -622,19 +663,7 @@ def check_interrupters(p, reach, r):
                                 calls.append((g, cc))
                     def tracked_arg(g, cc):
                         a = cc.args[pos] if pos < len(cc.args) else next((k.value for k in cc.keywords if k.arg == recv.id), None)
-                        if a is None:
-                            return False
-                        t = ast.unparse(a)
-                        if 'process_info' in t or 'active_move_processes' in t or 'active_delayed_interrupt_processes' in t:
-                            return True
-                        if isinstance(a, ast.Name):
-                            for m in walk_no_nested(g.node):
-                                if isinstance(m, ast.Assign) and any(isinstance(t2, ast.Name) and t2.id == a.id for t2 in m.targets) \
-                                        and ('process_info' in ast.unparse(m.value) or 'active_move_processes' in ast.unparse(m.value)):
-                                    return True
-                                if isinstance(m, ast.For) and 'active_delayed_interrupt_processes' in ast.unparse(m.iter) and a.id in ast.unparse(m.target):
-                                    return True
-                        return False
+                        return a is not None and tracked_process_expr(g, a)
                     tracked = bool(calls) and all((g.cls is not None and (g.module, g.cls) in belt_keys) and tracked_arg(g, cc) for g, cc in calls)
                 if inside and tracked:
                     r.ok('C13.R5', key, 'belt store interrupting a process it tracks', src(fi.module), c.lineno)
